@@ -231,6 +231,12 @@ func hashToG1(g *gen.G, msg []byte, h hash.Hasher) bls381.G1 {
 	if err != nil {
 		g.Fatalf("signature of scalar 1 is not a canonical G1 encoding: %x (%v)", []byte(s), err)
 	}
+	if pt.Inf {
+		// scripted hasher outputs with u1 ≡ −u0 (mod p) map to the identity: the
+		// properties are stated for a hash-to-curve image that is a generator
+		// of G1; the degenerate image is excluded (and counted).
+		g.Skip("hash-to-curve image is the identity (scripted hasher output with u1 = -u0)")
+	}
 	if !pt.InSubgroup() {
 		g.Fatalf("hash-to-curve output (signature of scalar 1) is not in G1: %x", []byte(s))
 	}
